@@ -164,7 +164,11 @@ impl<T: Elem> USet for W64<T> {
         self.0.remove(&T::from_raw(v))
     }
     fn con(&self, v: u64) -> bool {
-        self.0.contains(T::from_raw(v)) && self.0.contains(&T::from_raw(v))
+        let (a, b) = (self.0.contains(T::from_raw(v)), self.0.contains(&T::from_raw(v)));
+        if a != b {
+            panic!("contains by value and by reference disagree");
+        }
+        a
     }
     fn len(&self) -> usize {
         self.0.len()
